@@ -16,6 +16,9 @@ import (
 
 // FTask is a task of a C09 program; Cmds holds the exit status of each command.
 type FTask struct {
+	// GoneDep: also depends on gone.txt, which exists for the priming run and is removed before the
+	// failing one: spok gives up at this task with an error of its own
+	GoneDep bool     `json:"gone_dep,omitempty"`
 	Name    string   `json:"name"`
 	FileDep bool     `json:"file_dep"`
 	Deps    []string `json:"deps,omitempty"`
@@ -38,6 +41,10 @@ type FailCase struct {
 	// Via selects how the tasks are started: "" by name; "clean": the first task is called clean
 	// and started by `spok --clean`; "default": it is called default and started by `spok` without names.
 	Via string `json:"via,omitempty"`
+	// ROCache (with Prime): during the failing run only, the cache cannot be written: "file" makes
+	// .spok/cache.json read-only, "dir" the .spok directory. spok may refuse to run; if it does run
+	// a task and that task fails, the task is still not up to date afterwards.
+	ROCache string `json:"ro_cache,omitempty"`
 }
 
 var failNames = []string{"alpha", "bravo", "charlie", "delta"}
@@ -47,6 +54,9 @@ var failFlagSets = [][]string{nil, {"--quiet"}, {"--json"}, {"--force"}, {"--qui
 func genFail(t *rapid.T) FailCase {
 	c := genFailBody(t)
 	c.ProjDir = genProjDir(t)
+	if c.Prime && rapid.IntRange(0, 4).Draw(t, "ro_cache") == 0 {
+		c.ROCache = rapid.SampledFrom([]string{"file", "dir"}).Draw(t, "ro_cache_kind")
+	}
 	return c
 }
 
@@ -56,6 +66,7 @@ func genFailBody(t *rapid.T) FailCase {
 	anyFail := false
 	for i := 0; i < n; i++ {
 		ft := FTask{Name: failNames[i], FileDep: rapid.IntRange(0, 9).Draw(t, "filedep") < 7}
+		ft.GoneDep = rapid.IntRange(0, 9).Draw(t, "gonedep") == 0
 		for j := i + 1; j < n; j++ {
 			if rapid.IntRange(0, 2).Draw(t, "dep") == 2 {
 				ft.Deps = append(ft.Deps, failNames[j])
@@ -115,6 +126,9 @@ func (c FailCase) source() string {
 		if t.FileDep {
 			args = append(args, `"in.txt"`)
 		}
+		if t.GoneDep {
+			args = append(args, `"gone.txt"`)
+		}
 		args = append(args, t.Deps...)
 		fmt.Fprintf(&b, "task %s(%s) {\n", t.Name, strings.Join(args, ", "))
 		for ci, st := range t.Cmds {
@@ -161,7 +175,7 @@ func execFail(s *ev.Shard, b *sandbox.Box, c FailCase) *rp.Fail {
 		return &rp.Fail{Sig: "harness", Msg: err.Error()}
 	}
 	src := c.source()
-	if err := writeProject(b, b.Proj, map[string]string{"spokfile": src, "in.txt": "input"}); err != nil {
+	if err := writeProject(b, b.Proj, map[string]string{"spokfile": src, "in.txt": "input", "gone.txt": "soon gone"}); err != nil {
 		return &rp.Fail{Sig: "harness", Msg: err.Error()}
 	}
 	logPath := filepath.Join(b.Home, "run.log")
@@ -185,8 +199,22 @@ func execFail(s *ev.Shard, b *sandbox.Box, c FailCase) *rp.Fail {
 		}
 		_ = os.Remove(logPath)
 	}
+	_ = os.Remove(filepath.Join(b.Proj, "gone.txt"))
 	env = append(env, "ARMED=1")
+	cacheDir := filepath.Join(b.Proj, ".spok")
+	if c.Prime {
+		switch c.ROCache {
+		case "file":
+			_ = os.Chmod(filepath.Join(cacheDir, "cache.json"), 0o444)
+		case "dir":
+			_ = os.Chmod(cacheDir, 0o555)
+		}
+	}
 	r1 := b.Run(b.Proj, env, runTimeout, args...)
+	if c.Prime && c.ROCache != "" {
+		_ = os.Chmod(filepath.Join(cacheDir, "cache.json"), 0o644)
+		_ = os.Chmod(cacheDir, 0o755)
+	}
 	if r1.TimedOut {
 		return &rp.Fail{Sig: "harness", Msg: "spok timed out"}
 	}
@@ -195,6 +223,9 @@ func execFail(s *ev.Shard, b *sandbox.Box, c FailCase) *rp.Fail {
 	desc := fmt.Sprintf("spokfile:\n%s`spok %s`", src, strings.Join(args, " "))
 	if c.Prime {
 		desc = fmt.Sprintf("spokfile:\n%s(after a first run of %v in which every command succeeded) `spok %s`", src, c.Request, strings.Join(args, " "))
+		if c.ROCache != "" {
+			desc += fmt.Sprintf(" (while the cache %s was read-only)", map[string]string{"file": "file", "dir": "directory"}[c.ROCache])
+		}
 	}
 	stderr1 := sandbox.Strip(r1.Stderr)
 	if len(F) > 0 {
@@ -227,8 +258,13 @@ func execFail(s *ev.Shard, b *sandbox.Box, c FailCase) *rp.Fail {
 	if len(F) > 0 && r2.Exit == 0 {
 		return &rp.Fail{Sig: "failed-task-treated-as-up-to-date", Size: size, Msg: fmt.Sprintf("%s: task(s) %v failed, yet the same request succeeds on the next run without any change (log of second run %v):\n%s", desc, F, log2, out2)}
 	}
-	if len(F) == 1 {
-		// a single failing task must be executed again (its first command is logged again)
+	anyGone := false
+	for _, t := range c.Tasks {
+		anyGone = anyGone || t.GoneDep
+	}
+	if len(F) == 1 && !anyGone {
+		// a single failing task must be executed again (its first command is logged again); with a
+		// dependency gone the next run may stop at that error instead, which is not "up to date" either
 		for ti, t := range c.Tasks {
 			if t.Name == F[0] && !contains(log2, marker(ti, 0)) {
 				return &rp.Fail{Sig: "failed-task-not-rerun", Size: size, Msg: fmt.Sprintf("%s: task %s failed but did not run again on the next run (log %v)", desc, t.Name, log2)}
@@ -255,6 +291,9 @@ func execFail(s *ev.Shard, b *sandbox.Box, c FailCase) *rp.Fail {
 		s.Class("flags_" + strings.Join(c.Flags, ""))
 		if c.Prime {
 			s.Class("failure_on_populated_cache")
+		}
+		if c.ROCache != "" && c.Prime {
+			s.Class("failing_run_with_unwritable_cache")
 		}
 		if c.Via != "" {
 			s.Class("started_via_" + c.Via)
